@@ -57,6 +57,10 @@ FIXED: List[Tuple[Dict[str, List[str]], str]] = [
     (ASSGN, 'exists <rhs> r in start: (exists <digit> d in r: ((= (str.to.int d) 5)))'),
     (ASSGN, 'forall <assgn> a1 in start: (forall <assgn> a2 in start: ((same_position(a1, a2) or (not (= a1 a2)))))'),
     (ASSGN, 'exists <stmt> s in start: (exists <assgn> a in s: (nth("2", a, s)))'),
+    (ASSGN, 'exists <stmt> s in start: (count(s, "<assgn>", "2"))'),
+    (ASSGN, 'forall <stmt> s in start: (count(s, "<var>", "2") or count(s, "<var>", "3") or count(s, "<var>", "4"))'),
+    (NUMS, 'exists <list> l in start: (count(l, "<num>", "2"))'),
+    (NUMS, 'exists <num> n in start: (count(n, "<dig>", "3"))'),
     (NUMS, 'forall <num> n in start: ((> (str.to.int n) 10))'),
     (NUMS, 'exists <num> n in start: ((= (str.to.int n) 29))'),
     (NUMS, 'forall <num> n in start: ((= (str.len n) 2))'),
